@@ -44,7 +44,7 @@ class ScopeInfo:
         cls = cal.get('cls', '')
         from .facts import short
         scls = short(cls)
-        if cls in LOCK_CLASSES or scls in LOCK_CLASSES:
+        if cls in LOCK_CLASSES or scls in LOCK_CLASSES or scls in fn.tu.lock_guard_classes():
             return 'lock'
         if scls in GUARD_CLASSES or scls in fn.tu.counter_guard_classes():
             return 'guard'
